@@ -135,6 +135,13 @@ func (e *Environment) Remove(name string) {
 	}
 }
 
+// Has tells if the environment holds a value under the name
+func (e *Environment) Has(name string) bool {
+	_, ok := e.store[name]
+
+	return ok
+}
+
 // MarkToCompact adds the modified object to the list of objects that must be compact
 func (e *Environment) MarkToCompact(obj Object) {
 	e.toCompact = append(e.toCompact, obj)
